@@ -132,7 +132,10 @@ class Polyhedron(Shape3D):
 
     def __init__(self, vertices, faces, faces_are_convex=None):
         self._vertices = np.array(vertices, dtype=np.float64)
-        self._faces = [face for face in faces]
+        # Own copies: sort_faces reorders the faces in place.
+        self._faces = [
+            face.copy() if isinstance(face, np.ndarray) else list(face) for face in faces
+        ]
         if faces_are_convex is None:
             faces_are_convex = all(len(face) == 3 for face in faces)
         self._faces_are_convex = faces_are_convex
@@ -1041,6 +1044,8 @@ class Polyhedron(Shape3D):
             ["vertices", "faces", "centroid", "volume", "inertia_tensor"]
         )
         hoomd_dict = _map_dict_keys(data, key_mapping=_hoomd_dict_mapping)
+        # Copy: the stored vertices are moved back below.
+        hoomd_dict["vertices"] = self.vertices.copy()
         hoomd_dict["sweep_radius"] = 0.0
 
         self.centroid = old_centroid
